@@ -4,7 +4,7 @@
    PARTIAL BY DESIGN (DESIGN section 4, C08): the theorems are about exact real arithmetic and about index logic;
    floating-point accuracy, LAPACK and libm are tested with stated tolerances by checks/C08.py, not proved. *)
 From Coq Require Import Reals List ZArith Bool.
-From DuneV Require Import C08_Model C08_Spec C08_Proofs C08_Proofs_Handover C08_Proofs_2x2 C08_Proofs_3x3 C08_Proofs_Eig0.
+From DuneV Require Import C08_Model C08_Spec C08_Proofs C08_Proofs_Handover C08_Proofs_2x2 C08_Proofs_3x3 C08_Proofs_Eig0 C08_Proofs_Eigvec3 C08_Proofs_3x3_Full C08_Proofs_3x3_Scale.
 Import ListNotations.
 
 (* eigenvalue-only and eigenvalue+vector entry points run the same eigenvalue computation: for EVERY operation
@@ -161,22 +161,31 @@ Example C08_handover_nonsym_fixed_nonvacuous :
 Proof. exact P_ex_nonsym_fixed. Qed.
 
 (* ---------------------------------------------------------------------------------------------- 3x3 eigenvalues (Smith 1961)
-   FULL statement intended (DESIGN C08_3x3_exact): for every real symmetric 3x3 matrix the routine returns the three real
-   roots of the characteristic polynomial in ascending order, sum = trace, and orthonormal eigenvectors.
-   PROVED (partial): the eigenvalue part of the non-diagonal branch with acos/cos the real functions, under the hypothesis
-   that the clamp of r to [-1,1] is inactive (true in exact arithmetic for every symmetric matrix -- discriminant >= 0 --
-   but not proved here).  Missing: that inequality, the eigenvector construction (eig0/eig1/orthoComp), the diagonal shortcut. *)
-Theorem C08_3x3_eigenvalues_partial : forall a00 a01 a02 a11 a12 a22,
-  0 < a01 * a01 + a02 * a02 + a12 * a12 ->
-  -1 <= c08_smith3_r a00 a01 a02 a11 a12 a22 <= 1 ->
-  let '(e0, e1, e2) := c08_smith3 a00 a01 a02 a11 a12 a22 in
+   eigenValues3dImpl over R (acos / cos the real functions), the threshold of the diagonal shortcut `p1 <= epsilon` a parameter. *)
+
+(* the clamp of r = det(B)/2 to [-1,1] is INACTIVE in exact arithmetic for every non-diagonal real symmetric matrix
+   (|det B| <= 2 for trace-free symmetric B with tr(B^2) = 6; proved by Cauchy-Schwarz, no spectral theorem assumed) *)
+Theorem C08_3x3_clamp_inactive : forall a00 a01 a02 a11 a12 a22,
+  0 < a01 * a01 + a02 * a02 + a12 * a12 -> -1 <= c08_smith3_r a00 a01 a02 a11 a12 a22 <= 1.
+Proof. exact Hclamp. Qed.
+Print Assumptions C08_3x3_clamp_inactive.
+
+(* C08_3x3_exact, eigenvalue part, FULL: threshold 0, EVERY real symmetric 3x3 matrix, both branches: the three values are
+   ascending, sum to the trace and are ALL the roots of the characteristic polynomial with multiplicity *)
+Theorem C08_3x3_eigenvalues : forall a00 a01 a02 a11 a12 a22,
+  let '(e0, e1, e2) := c08_eig3 0 a00 a01 a02 a11 a12 a22 in
   e0 <= e1 /\ e1 <= e2 /\ e0 + e1 + e2 = a00 + a11 + a22 /\
-  c08_charpoly3 a00 a01 a02 a11 a12 a22 e0 = 0 /\ c08_charpoly3 a00 a01 a02 a11 a12 a22 e1 = 0 /\
-  c08_charpoly3 a00 a01 a02 a11 a12 a22 e2 = 0.
-Proof. exact P_smith3_partial. Qed.
-Print Assumptions C08_3x3_eigenvalues_partial.
-Example C08_3x3_eigenvalues_nonvacuous : 0 < 1 * 1 + 0 * 0 + 0 * 0 /\ -1 <= c08_smith3_r 0 1 0 0 0 0 <= 1.
-Proof. exact P_ex_smith3. Qed.
+  forall x, c08_charpoly3 a00 a01 a02 a11 a12 a22 x = (x - e0) * (x - e1) * (x - e2).
+Proof. exact P_eig3. Qed.
+Print Assumptions C08_3x3_eigenvalues.
+
+(* every POSITIVE threshold of the diagonal shortcut is refuted as an exact statement ([[0,t,0],[t,0,0],[0,0,5]], t*t <= eps);
+   the error is O(sqrt(eps)) ||A||, which is what the tolerance of the 3x3 TESTS allows *)
+Theorem C08_3x3_eps_refuted : forall eps, 0 < eps -> exists a00 a01 a02 a11 a12 a22,
+  let '(e0, e1, e2) := c08_eig3 eps a00 a01 a02 a11 a12 a22 in
+  c08_charpoly3 a00 a01 a02 a11 a12 a22 e0 <> 0.
+Proof. exact P_eig3_eps_refuted. Qed.
+Print Assumptions C08_3x3_eps_refuted.
 
 (* ---------------------------------------------------------------------------------------------- 3x3 eigenvector, Impl::eig0
    For ANY real 3x3 matrix A and eigenvalue l with rank(A - l I) = 2 (a simple eigenvalue of a symmetric matrix), the
@@ -200,3 +209,52 @@ Example C08_3x3_eigvec_nonvacuous : c08_det3m (c08_shift3 c08_ex_A3 (-5)) = 0 /\
    ~ (is_zero3 (c08_cross r0 r1) /\ is_zero3 (c08_cross r0 r2) /\ is_zero3 (c08_cross r1 r2))) /\
   fst (c08_eig0 c08_ex_A3 (-5)) = 1%nat.
 Proof. exact P_ex_eig0. Qed.
+
+(* ---------------------------------------------------------------------------------------------- 3x3 eigenvectors: eig0 + eig1 + cross product
+   C08_3x3_eigvec: A real symmetric, (l0,l1,l2) its eigenvalues (roots, sum = trace), the extreme eigenvalue eig0 is called for
+   (l2 if r >= 0, l0 otherwise) simple (rank(A - l I) = 2, different from l1).  Then orthoComp/eig1/cross product run without
+   division by zero (the model returns None on a zero divisor) and deliver orthonormal w_i with A w_i = l_i w_i.
+   The double-eigenvalue case l1 = (other extreme) IS covered (M = 0 branch of eig1). *)
+Theorem C08_3x3_eigvec : forall a00 a01 a02 a11 a12 a22 r l0 l1 l2,
+  let A := c08_symm a00 a01 a02 a11 a12 a22 in
+  c08_det3m (c08_shift3 A l0) = 0 -> c08_det3m (c08_shift3 A l1) = 0 -> c08_det3m (c08_shift3 A l2) = 0 ->
+  l0 + l1 + l2 = a00 + a11 + a22 ->
+  (0 <= r -> l1 <> l2 /\ c08_rank2 A l2) -> (r < 0 -> l1 <> l0 /\ c08_rank2 A l0) ->
+  exists w0 w1 w2, c08_eigvecs3 A r (l0, l1, l2) = Some (w0, w1, w2) /\
+    c08_eigvec_of A l0 w0 /\ c08_eigvec_of A l1 w1 /\ c08_eigvec_of A l2 w2 /\
+    c08_dot3 w0 w0 = 1 /\ c08_dot3 w1 w1 = 1 /\ c08_dot3 w2 w2 = 1 /\
+    c08_dot3 w0 w1 = 0 /\ c08_dot3 w0 w2 = 0 /\ c08_dot3 w1 w2 = 0.
+Proof. exact P_eigvec3. Qed.
+Print Assumptions C08_3x3_eigvec.
+
+(* C08_3x3_exact (non-diagonal branch, threshold 0), NO further hypotheses: for every real symmetric 3x3 matrix that is not
+   diagonal, Smith's eigenvalues are all the roots in ascending order and the eigenvector construction yields an orthonormal
+   eigenbasis: the extreme eigenvalue chosen by the sign of r is always simple (proved), hence rank 2 (proved).
+   Not modelled: the eigenvectors of the diagonal shortcut (unit vectors permuted jointly with the sort) and the final sort of
+   the (eigenvalue, eigenvector) pairs (identity on ascending eigenvalues). *)
+Theorem C08_3x3_exact : forall a00 a01 a02 a11 a12 a22,
+  0 < a01 * a01 + a02 * a02 + a12 * a12 ->
+  let A := c08_symm a00 a01 a02 a11 a12 a22 in
+  let ev := c08_smith3 a00 a01 a02 a11 a12 a22 in
+  let r := c08_clamp (c08_smith3_r a00 a01 a02 a11 a12 a22) (-1) 1 in
+  let '(l0, l1, l2) := ev in
+  l0 <= l1 /\ l1 <= l2 /\ l0 + l1 + l2 = a00 + a11 + a22 /\
+  (forall x, c08_charpoly3 a00 a01 a02 a11 a12 a22 x = (x - l0) * (x - l1) * (x - l2)) /\
+  exists w0 w1 w2, c08_eigvecs3 A r ev = Some (w0, w1, w2) /\
+    c08_eigvec_of A l0 w0 /\ c08_eigvec_of A l1 w1 /\ c08_eigvec_of A l2 w2 /\
+    c08_dot3 w0 w0 = 1 /\ c08_dot3 w1 w1 = 1 /\ c08_dot3 w2 w2 = 1 /\
+    c08_dot3 w0 w1 = 0 /\ c08_dot3 w0 w2 = 0 /\ c08_dot3 w1 w2 = 0.
+Proof. exact P_3x3_exact. Qed.
+Print Assumptions C08_3x3_exact.
+Example C08_3x3_exact_nonvacuous : 0 < 2 * 2 + 0 * 0 + 0 * 0.
+Proof. exact P_ex_p1. Qed.
+
+(* C08_3x3_scale_invariant: the 3d specialisation runs its WHOLE computation [core] (any thresholds; eigenvalues only or with
+   eigenvectors) on A / ||A||_inf and multiplies the eigenvalues back: for s > 0 and A <> 0 the result for s A is s times the
+   eigenvalues and exactly the same eigenvectors (for A = 0, s A = A) *)
+Theorem C08_3x3_scale_invariant : forall (X : Type) (core : R -> R -> R -> R -> R -> R -> (R * R * R) * X)
+  s a00 a01 a02 a11 a12 a22, 0 < s -> c08_infnorm3 a00 a01 a02 a11 a12 a22 <> 0 ->
+  c08_prescaled core (s * a00) (s * a01) (s * a02) (s * a11) (s * a12) (s * a22) =
+  let '((e0, e1, e2), x) := c08_prescaled core a00 a01 a02 a11 a12 a22 in ((s * e0, s * e1, s * e2), x).
+Proof. exact P_3x3_scale_invariant. Qed.
+Print Assumptions C08_3x3_scale_invariant.
